@@ -191,7 +191,6 @@ func runCheck(w *World, prop string, timeoutS int, confirm bool, known *KnownFil
 		for n := range j.c.Loops {
 			if n > rep.Loops && !rep.InheritedLoops[fmt.Sprintf("%s:%d", j.c.Key, n)] {
 				res.ToolErrors = append(res.ToolErrors, fmt.Sprintf("contract-mismatch: %s has %d loops, contract names loop %d", rep.Func, rep.Loops, n))
-				loopMisfit[rep.Func] = fmt.Sprintf("contract names loop %d, function has %d", n, rep.Loops)
 			}
 		}
 		var keep []*Obligation
